@@ -888,6 +888,48 @@ func (e *SpecEnv) evalCall(x SCall) SV {
 	case "xmlRem":
 		// ghost: number of tokens the xml decoder can still deliver (finite input)
 		return SV{Term: e.Cur.Heap(xmlRemHeap(e.G)), Typ: intT}
+	case "xmlPos":
+		// ghost: number of tokens the xml decoder has delivered so far (position in the fixed token sequence)
+		return SV{Term: e.Cur.Heap(xmlPosHeap(e.G)), Typ: intT}
+	case "xmlTok":
+		// the token at position i of the fixed token sequence (an interface value: xmlTok(i).(xml.StartElement).Attr ...)
+		return SV{Term: fmt.Sprintf("(%s %s)", xmlTokUF(e.G), arg(0).Term), Typ: types.NewInterfaceType(nil, nil)}
+	case "xmlDepth":
+		// nesting depth before position i: (#StartElement - #EndElement) among the tokens [0,i)
+		return SV{Term: fmt.Sprintf("(%s %s)", xmlDepthUF(e.G), arg(0).Term), Typ: intT}
+	case "xmlOpen":
+		// position of the start tag matching the end tag at position i (nesting guarantee of Token)
+		xmlDepthUF(e.G)
+		return SV{Term: fmt.Sprintf("(xml_open %s)", arg(0).Term), Typ: intT}
+	case "tokIsStart", "tokIsEnd", "tokIsChar":
+		n := map[string]string{"tokIsStart": "StartElement", "tokIsEnd": "EndElement", "tokIsChar": "CharData"}[x.Fn]
+		return SV{Term: fmt.Sprintf("(= (itag (%s %s)) %d)", xmlTokUF(e.G), arg(0).Term, xmlTokTag(e.G, n)), Typ: boolT}
+	case "tokLocal", "tokSpace":
+		// Name.Local / Name.Space of the start or end tag at position i
+		xp := xmlPkgOf(e.G)
+		tk := fmt.Sprintf("(%s %s)", xmlTokUF(e.G), arg(0).Term)
+		fld := map[string]string{"tokLocal": "Local", "tokSpace": "Space"}[x.Fn]
+		ns := e.G.TE.SortOf(xp.Scope().Lookup("Name").Type())
+		of := func(tn string) string {
+			t := xp.Scope().Lookup(tn).Type()
+			return fmt.Sprintf("(%s_%s (%s_Name %s))", ns, fld, e.G.TE.SortOf(t), e.G.ifacePayload(tk, t))
+		}
+		return SV{Term: fmt.Sprintf("(ite (= (itag %s) %d) %s %s)", tk, xmlTokTag(e.G, "StartElement"), of("StartElement"), of("EndElement")), Typ: types.Typ[types.String]}
+	case "tokAttrs":
+		// the Attr slice of the start tag at position i
+		xp := xmlPkgOf(e.G)
+		t := xp.Scope().Lookup("StartElement").Type()
+		tk := fmt.Sprintf("(%s %s)", xmlTokUF(e.G), arg(0).Term)
+		return SV{Term: fmt.Sprintf("(%s_Attr %s)", e.G.TE.SortOf(t), e.G.ifacePayload(tk, t)), Typ: types.NewSlice(xp.Scope().Lookup("Attr").Type())}
+	case "tokStart":
+		// the start tag at position i as a struct value (compare with a StartElement parameter field by field)
+		xp := xmlPkgOf(e.G)
+		t := xp.Scope().Lookup("StartElement").Type()
+		tk := fmt.Sprintf("(%s %s)", xmlTokUF(e.G), arg(0).Term)
+		return SV{Term: e.G.ifacePayload(tk, t), Typ: t}
+	case "tokChars":
+		// string(t) of the CharData token t at position i, as it was when the token was delivered
+		return SV{Term: fmt.Sprintf("(%s %s)", xmlCharsUF(e.G), arg(0).Term), Typ: types.Typ[types.String]}
 	case "encCount":
 		// number of values accepted by xml Encode so far (ghost)
 		n, _ := encHeaps(e.G)
